@@ -334,6 +334,9 @@ impl Uci {
                 let is_stopped = self.is_stopped.clone();
 
                 let join_handle = std::thread::spawn(move || {
+                    #[cfg(jgilchrist_tcheran_verif)]
+                    crate::engine::search::time_control::verif::delay("TCHERAN_VERIF_DELAY_START_MS");
+
                     let mut persistent_state_handle = persistent_state.lock().unwrap();
 
                     let best_move = search::search(
@@ -346,7 +349,14 @@ impl Uci {
                     );
 
                     reporter.best_move(&game, best_move);
+
+                    #[cfg(jgilchrist_tcheran_verif)]
+                    crate::engine::search::time_control::verif::delay("TCHERAN_VERIF_DELAY_PRINTED_MS");
+
                     is_stopped.set();
+
+                    #[cfg(jgilchrist_tcheran_verif)]
+                    crate::engine::search::time_control::verif::delay("TCHERAN_VERIF_DELAY_TAIL_MS");
                 });
 
                 if self.block_on_threads {
